@@ -79,6 +79,9 @@ def run(ctx):
     sruns = 20 if ctx.thorough() else 4
     vlib.kvh(["trace", "ctrstress", ctx.seed, sruns, ctx.rundir, 2000], out=st)
     vlib.validate_trace(ctx, "FactsTrace", st, "contention stress: 2000 identical records x 16 threads (no hooks)", "ctrstress")
+    bg = ctx.path("ctrbig.ndjson")
+    vlib.kvh(["trace", "ctrbig", ctx.seed, ctx.rundir], out=bg)
+    vlib.validate_trace(ctx, "FactsTrace", bg, "records given by run lengths (276 000 bases in one record, a k-mer 210 000 times), k=5,16,31,11, one chunk and several", "ctrbig")
     ctx.evaluations += sruns
     ctx.nontrivial += sruns
     mm.tinv(ctx, "ctr", 20000 if ctx.thorough() else 6000)
